@@ -90,12 +90,18 @@ def one_table(rng, tier, res, idx):
             if not all(l.val.literal_ok() for l in p.leaves()):
                 continue
             where = p.sql(names)
+            where_sel = where
+            if rng.random() < 0.35 and not has_or(p):
+                # some comparisons written constant-first (5 < t.c0): a form only the optimizer's path (SELECT, conjunctions) supports;
+                # with OR, and in UPDATE / DELETE, the planner's processPredicateTreeNode takes the left operand for a column name
+                flip_some(rng, p, 0.4)
+                where_sel = p.sql(Names(names, "t"))
             if kind < 0.80 or True:
                 pass
             what = rng.random()
             if what < 0.78:
                 cols = rng.sample(range(len(types)), rng.randrange(1, len(types) + 1))
-                sql = "SELECT %s FROM t WHERE %s;" % (",".join(names[c] for c in cols), where)
+                sql = "SELECT %s FROM t WHERE %s;" % (",".join(names[c] for c in cols), where_sel)
                 got = canon_rows(db.sql(sql))
                 want = ref.cmd("S t %s %s" % (",".join(map(str, cols)), p.rpn()))
                 nontriv = sum(1 for l in p.leaves() if kinds[l.col] != "n") >= 2
